@@ -151,7 +151,10 @@ pub fn run_pipeline_case(
     let ref_db = SimDb::from_scenario(s, false, true);
     let mut ref_state = reference::new_ref_state(&ref_db, s.bundle_update);
     let first_entry = s.callers.first().and_then(|c| c.first()).cloned().unwrap_or(Entry::Execute);
-    let preload = takes_parallel_path(s, &first_entry);
+    // Both paths load the fee recipient up front (the property text of C04 defines that as the
+    // reference; the sequential path does so since the C06 fix).
+    let _ = &first_entry;
+    let preload = true;
     let ref_first = reference::run_reference_block(&mut ref_state, &s.evm, &s.block, &s.txs, &pcs_ref, preload);
     let mut ref_second = None;
     if ref_first.error.is_none() &&
@@ -473,4 +476,146 @@ pub fn run_pipeline_case(
         stats.db_errors_persistent + stats.db_errors_once + stats.db_errors_nth + stats.db_panics > 0 ||
         !stats.completed;
     CaseOutput { findings, stats, trace: want.record_trace.then_some(sched_out.trace), summary }
+}
+
+// ------------------------------------------------------------------------------------------------
+// C06 / C13: relation between runs of one block under different configurations and entry points.
+// ------------------------------------------------------------------------------------------------
+
+struct RunSummary {
+    name: String,
+    call: String,
+    outcomes: Vec<TxExecutionOutcome>,
+    bundle: revm_database::BundleState,
+}
+
+fn summarise_call(c: Option<&run::CallResult>) -> String {
+    match c.map(|c| &c.outcome) {
+        None => "<no call>".into(),
+        Some(CallOutcome::Ok) => "Ok".into(),
+        Some(CallOutcome::Err { txid, error, .. }) => format!("Err(tx {txid}, {error})"),
+        Some(CallOutcome::Panic(k)) => format!("Panic({k:?})"),
+    }
+}
+
+/// Variant A = (scenario, sched[, trace]) in the simulator; B = other worker count and schedule;
+/// C = execute() with force_sequential; D = fallback_sequential(). All must agree on Ok/Err, failing
+/// index and error, outcomes and bundle.
+pub fn run_relation_case(scenario: &Arc<Scenario>, sched: &SchedSpec, replay: Option<Trace>, want: &PipelineWant) -> CaseOutput {
+    let s: &Scenario = scenario;
+    let opts = RunOptions { record_trace: want.record_trace, record_log: false, expected_first: None, expected_second: None };
+    let mut findings = Vec::new();
+    let mut summaries: Vec<RunSummary> = Vec::new();
+    let mut stats = CaseStats { txs: s.txs.len(), workers: s.grevm.concurrency, ..CaseStats::default() };
+    let mut trace_out = None;
+    let mut behaviour = 0xcbf2_9ce4_8422_2325u64;
+
+    let mut sim_variant = |name: &str, sc: &Arc<Scenario>, sd: &SchedSpec, tr: Option<Trace>, first: bool, findings: &mut Vec<Finding>, stats: &mut CaseStats| -> Option<RunSummary> {
+        let SimResult { verdict, sched: sched_out, monitor, steps, trace_hash, fault_counts, .. } = run::run_sim(sc, sd, tr, &opts);
+        stats.decisions += sched_out.decisions;
+        stats.steps += steps;
+        stats.context_switches += sched_out.context_switches;
+        stats.preemptions += sched_out.preemptions;
+        stats.spurious_wakes += sched_out.spurious_wakes;
+        stats.starve_applied += sched_out.starve_applied;
+        stats.pauses_applied += sched_out.pauses_applied;
+        if sched_out.fair_phase_entered {
+            stats.fair_phase_entered = true;
+            stats.fair_decisions = stats.fair_decisions.max(sched_out.fair_decisions);
+        }
+        for (i, v) in fault_counts.iter().enumerate() {
+            stats.rt_faults[i] += v;
+        }
+        if first {
+            stats.trace_hash = trace_hash;
+            stats.probes = monitor.probes.clone();
+            trace_out = Some(sched_out.trace.clone());
+        }
+        for (i, n) in monitor.incarnations.iter().enumerate() {
+            fnv64(&mut behaviour, (i as u64) << 32 | (*n as u64) << 8);
+        }
+        fnv64(&mut behaviour, monitor.fallback_start.map_or(0xff, |x| x as u64));
+        if monitor.probes.reexecutions > 0 || monitor.fallback_start.is_some() || monitor.probes.exec_errors > 0 {
+            stats.nontrivial = true;
+        }
+        match verdict {
+            Verdict::Completed(out) => {
+                let mut out = *out;
+                stats.db_calls += out.db.stats.calls.load(std::sync::atomic::Ordering::Relaxed);
+                stats.db_latency_points += out.db.stats.latency_points.load(std::sync::atomic::Ordering::Relaxed);
+                stats.db_errors_persistent += out.db.stats.errors_persistent.load(std::sync::atomic::Ordering::Relaxed);
+                let bundle = out.first.state.parallel_take_bundle(want.retention());
+                let call = out.first.calls.iter().find(|c| !matches!(&c.outcome, CallOutcome::Err { kind: ErrKind::OnlyOnce, .. }));
+                Some(RunSummary { name: name.to_string(), call: summarise_call(call), outcomes: out.first.outcomes, bundle })
+            }
+            Verdict::Deadlock(m) => {
+                findings.push(finding("C06", "relation.no_result", format!("{name}: deadlock {m}")));
+                None
+            }
+            Verdict::StepBound => {
+                findings.push(finding("C06", "relation.no_result", format!("{name}: did not terminate in the fair phase")));
+                None
+            }
+            Verdict::HarnessError(m) => {
+                findings.push(finding("HARNESS", "harness_error", m));
+                None
+            }
+        }
+    };
+
+    if let Some(a) = sim_variant("parallel", scenario, sched, replay, true, &mut findings, &mut stats) {
+        summaries.push(a);
+    }
+    // B: other worker count, other schedule
+    let mut sb = (**scenario).clone();
+    sb.grevm.concurrency = if s.grevm.concurrency > 1 { 1 } else { 3 };
+    sb.grevm.min_parallel_txs = 0;
+    let sb = Arc::new(sb);
+    let mut sched_b = sched.clone();
+    sched_b.seed = crate::prng::derive(sched.seed, 0xb0b);
+    sched_b.strategy = (sched.strategy + 1) % 5;
+    if let Some(b) = sim_variant("parallel-other-workers", &sb, &sched_b, None, false, &mut findings, &mut stats) {
+        summaries.push(b);
+    }
+    // C: min_parallel_txs above the block size (configured sequential path, inside the simulator)
+    let mut sc = (**scenario).clone();
+    sc.grevm.min_parallel_txs = s.txs.len() + 1;
+    let sc = Arc::new(sc);
+    if let Some(c) = sim_variant("min-parallel-threshold", &sc, sched, None, false, &mut findings, &mut stats) {
+        summaries.push(c);
+    }
+    // D, E: sequential entry points, outside the simulator
+    for (name, fallback_entry) in [("force-sequential", false), ("fallback-sequential-entry", true)] {
+        let (call, outcomes, mut state, db) = run::run_direct(s, fallback_entry);
+        stats.db_calls += db.stats.calls.load(std::sync::atomic::Ordering::Relaxed);
+        stats.db_errors_persistent += db.stats.errors_persistent.load(std::sync::atomic::Ordering::Relaxed);
+        let bundle = state.parallel_take_bundle(want.retention());
+        summaries.push(RunSummary { name: name.to_string(), call: summarise_call(Some(&call)), outcomes, bundle });
+    }
+    stats.completed = summaries.len() == 5;
+
+    if let Some((first, rest)) = summaries.split_first() {
+        for other in rest {
+            if first.call != other.call {
+                findings.push(finding(
+                    "C06",
+                    "relation.result",
+                    format!("{} returned {} but {} returned {}", first.name, first.call, other.name, other.call),
+                ));
+            } else if let Some(d) = diff_outcomes(&other.outcomes, &first.outcomes) {
+                findings.push(finding("C06", "relation.outcomes", format!("{} vs {}: {d}", other.name, first.name)));
+            } else if let Some(d) = diff_bundles(&other.bundle, &first.bundle) {
+                findings.push(finding("C06", "relation.bundle", format!("{} vs {}: {d}", other.name, first.name)));
+            }
+        }
+        fnv64(&mut behaviour, first.outcomes.len() as u64);
+        fnv64(&mut behaviour, first.call.len() as u64);
+        if first.call != "Ok" {
+            stats.call_error = true;
+            stats.nontrivial = true;
+        }
+    }
+    stats.behaviour = behaviour;
+    let summary = summaries.iter().map(|r| format!("{}={}", r.name, r.call.chars().take(40).collect::<String>())).collect::<Vec<_>>().join(" ");
+    CaseOutput { findings, stats, trace: if want.record_trace { trace_out } else { None }, summary }
 }
